@@ -1293,6 +1293,15 @@ def provenance(S, node, frame, limit=40, fields=False, through_mut=False):
         limit -= 1
         n = peel(node)
         k = n.get("k")
+        if k in ("Call", "MethodCall") and not str(n.get("callee_kind", "")).startswith("Ctor"):
+            h2 = S.should_inline(n, frame)
+            if h2 is not None:
+                # a local helper: its value is what its body evaluates to
+                f2 = S._enter(h2, n, frame)
+                t, tf = tail_value(S, h2["body"], f2)
+                methods.append("<" + last_seg(norm(h2["path"])) + ">")
+                node, frame = t, tf
+                continue
         if k == "MethodCall":
             methods.append(n["m"])
             node = n["recv"]
@@ -1412,6 +1421,12 @@ def passes_through(S, node, frame, target, limit=40):
         if n is target:
             return True
         k = n.get("k")
+        if k in ("Call", "MethodCall") and not str(n.get("callee_kind", "")).startswith("Ctor"):
+            h2 = S.should_inline(n, frame)
+            if h2 is not None:
+                f2 = S._enter(h2, n, frame)
+                node, frame = tail_value(S, h2["body"], f2)
+                continue
         if k == "MethodCall":
             node = n["recv"]
             continue
